@@ -23,6 +23,8 @@ def dist(kind, iv_ns, steps, rates, rands=(), gaps=()):
 
 def corpus():
     return [
+        "run prop=C09 mode=constant rate=3/100ms intervalms=100 dur=1200 conc=10 body=1 sloweval=3:250",      # C12k: one tick loop, one evaluation at a time - a slow evaluation delays the next, it does not overlap it
+        "run prop=C09 mode=constant rate=4/200ms dist=regular dur=1500 conc=10 body=1 sloweval=4:350",
         "distsum regular %d 6 24178880,24178880,99999999,99999999,24178881,50000000" % (900 * MS),   # C12l: tens of millions per interval still sum exactly
         "distsum regular %d 4 76831407,76831407,99999999,12345678" % (3100 * MS),
         dist("regular", 900 * MS, 18, [7, 3]),
